@@ -3800,11 +3800,10 @@ func (s *ImmuStore) TruncateUptoTx(minTxID uint64) error {
 				merr.Append(err)
 				continue
 			}
-			defer s.releaseVLog(vLogID)
-
 			s.logger.Infof("truncating vlog '%d' at offset '%d'", vLogID, offset)
 			err = vlog.DiscardUpto(offset)
 			merr.Append(err)
+			s.releaseVLog(vLogID)
 		}
 	}
 
